@@ -635,7 +635,13 @@ func OracleTypes(prop string, v *View) []Violation {
 	}
 	if c != nil && c.Returned {
 		if c.ErrClass == "bug" {
-			add(viol(prop, "bug-error", bugShape(c.Err), "run returned an internal consistency error: %s", c.Err))
+			vv := viol(prop, "bug-error", bugShape(c.Err), "run returned an internal consistency error: %s", c.Err)
+			if strings.Contains(c.Err, "'hl' -> '[") {
+				// the generated list of two differently shaped objects: its item schema is inferred from the
+				// first item only (known finding KF-C08-3)
+				vv.Shape += "; in a list literal of differently shaped objects"
+			}
+			add(vv)
 		} else if c.Err != "" && strings.Contains(c.Err, "resolve expressions") && len(v.Facts.RunError) == 0 {
 			// the workflow was accepted, every value has the declared type according to the model, and still
 			// an expression cannot be evaluated: some value does not have its declared type
